@@ -26,12 +26,18 @@ type Ramp struct {
 	// resources and scopes (300 crosses the 8-bit dictionaries of the
 	// container-level columns: schema URLs, scope names/versions)
 	Containers int
+	// Big: the first batches are as large as the id width allows and all
+	// fresh, until the id universe is past 65,535 + a margin
+	Big bool
 }
 
 // NewRamp draws the stream-level plan.
 func NewRamp(t *rapid.T, big bool) *Ramp {
-	r := &Ramp{T: t}
+	r := &Ramp{T: t, Big: big}
 	r.Reuse = rapid.SampledFrom([]int{1, 1, 2, 5}).Draw(t, "reuse")
+	if big && r.Reuse == 5 {
+		r.Reuse = 2 // 13,000 ids per batch would need six giant batches to cross
+	}
 	r.Sizes = []int{0, 1, 40, 130, 200, 300}
 	r.Fresh = []int{0, 10, 50, 100, 100}
 	if big {
@@ -52,13 +58,34 @@ func NewRamp(t *rapid.T, big bool) *Ramp {
 	return r
 }
 
+// pct is an unbiased percentage draw (see Stream.Rare).
+func (r *Ramp) pct(label string, p int) bool {
+	v := 0
+	for i := 0; i < 7; i++ {
+		v <<= 1
+		if rapid.Bool().Draw(r.T, label) {
+			v |= 1
+		}
+	}
+	return v*100/128 < p
+}
+
 // ids draws the ids of one batch: n ids, a fraction of them fresh.
 func (r *Ramp) ids() []int {
 	n := rapid.SampledFrom(r.Sizes).Draw(r.T, "rampn")
+	fresh := rapid.SampledFrom(r.Fresh).Draw(r.T, "freshpct")
+	if r.Big && r.Next < 70000 && r.pct("bigcross", 85) {
+		// scripted start: crossing 65,535 distinct values is the point of the
+		// big plan, leaving it to the size pool made it a 1-in-12 event
+		n, fresh = 65000, 100
+		if r.Next > 0 && r.Next < 65000 && rapid.Bool().Draw(r.T, "exact") {
+			// land exactly on, one below or one above the 16-bit limit
+			n = 65535 - r.Next + rapid.IntRange(-1, 1).Draw(r.T, "edge")
+		}
+	}
 	if max := 65000 / r.Reuse; n > max {
 		n = max // domain: at most 65,535 attribute-bearing parents per batch
 	}
-	fresh := rapid.SampledFrom(r.Fresh).Draw(r.T, "freshpct")
 	out := make([]int, 0, n)
 	if n > 2000 {
 		// large batches: avoid one draw per id; a block of fresh ids followed by reused ones
